@@ -11,7 +11,8 @@ that is C11's isolation, built into the shape of the specification. Clauses:
 * C11: a send to a client without a live session is rejected; a disconnect ends the session and nothing of it
   (waiting, outstanding) survives into a later session with the same id;
 * C02/C01/C08/C09 per client, as in `Ocpp.CD.Mon`;
-* no write to a client that is not connected.
+* no write to a client that is not connected;
+* time-out liveness: after `wait` no request that was outstanding before it is still outstanding.
 -/
 namespace Ocpp.SD
 
@@ -85,6 +86,12 @@ def SMonSt.event (ms : SMonSt) (e : Ev) (obs : List Obs) : Option SMonSt :=
   match SMon.obsList (decide (e = .wait)) (ms.running || decide (e = .stop)) ms0.m obs with
   | none => none
   | some m' =>
+    -- time-out liveness (C08, and C11: whatever happened to other clients): a request that was outstanding when more
+    -- than the time-out elapsed is not outstanding any more
+    let timedOut := match e with
+      | .wait => !ms.running || ms0.m.all (fun p => p.2.out.isNone || (m'.get p.1).out != p.2.out)
+      | _ => true
+    if !timedOut then none else
     -- progress at quiescence: no live client is left with waiting requests and nothing outstanding
     if m'.all (fun p => !p.2.live || p.2.out.isSome || p.2.waiting.isEmpty) then some { ms0 with m := m' } else none
 
